@@ -5,6 +5,7 @@ import (
 	"io"
 	"net/http"
 	"net/url"
+	"strings"
 
 	verif "MODULE/zzverif"
 )
@@ -165,4 +166,66 @@ func Harness_C14_Threshold(qlen int) {
 	}
 	verif.Assert(req.Header.Get(MethodHeader) == "finder", "method header")
 	verif.Assert(req.Header.Get(ProtocolVersionHeader) == ProtocolVersion, "protocol version header")
+}
+
+// c14Bodies: the shapes a body of an override request can take. Every one of
+// them combined with a query in the URL must be rejected (the property names
+// "override header combined with a URL query" without regard to the body).
+func c14OverrideBody(kind int) (body []byte, contentType string) {
+	switch kind {
+	case 0: // well-formed form-encoded tunnel
+		return []byte("q=a"), FormUrlEncodedContentType
+	case 1: // well-formed multipart tunnel
+		nb, h := EncodeTunnelledQuery("PUT", "q=a", []byte("{}"))
+		return nb, h.Get(ContentTypeHeader)
+	case 2: // multipart whose only part is the JSON body
+		nb, h := EncodeTunnelledQuery("PUT", "q=a", []byte("{}"))
+		ct := h.Get(ContentTypeHeader)
+		parts := bytes.SplitN(nb, []byte("\r\n--"), 3)
+		// parts[0] = opening boundary + query part; parts[1] = json part; parts[2] = closing
+		bnd := bytes.SplitN(nb[2:], []byte("\r\n"), 2)[0]
+		out := append([]byte("--"), bnd...)
+		out = append(out, parts[1][len(bnd):]...)
+		out = append(out, []byte("\r\n--")...)
+		out = append(out, bnd...)
+		out = append(out, []byte("--\r\n")...)
+		return out, ct
+	case 3: // a plain JSON body that is not a tunnel at all
+		return []byte("{}"), ApplicationJsonContentType
+	case 4: // no body, no content type
+		return nil, ""
+	}
+	// empty form-encoded body
+	return []byte{}, FormUrlEncodedContentType
+}
+
+// Harness_C14_OverrideWithUrlQuery: a POST carrying the method-override
+// header and a non-empty URL query (qlen symbolic bytes) is rejected whatever
+// its body looks like.
+func Harness_C14_OverrideWithUrlQuery(qlen int) {
+	q := verif.String(qlen)
+	kind := verif.Choose(6)
+	body, ct := c14OverrideBody(kind)
+	req := &http.Request{Method: http.MethodPost, URL: &url.URL{Path: "/root", RawQuery: q}, Header: http.Header{}, Body: io.NopCloser(bytes.NewReader(body))}
+	req.Header.Set(MethodOverrideHeader, "PUT")
+	if ct != "" {
+		req.Header.Set(ContentTypeHeader, ct)
+	}
+	var err error
+	p, msg := verif.Try(func() { err = DecodeTunnelledQuery(req) })
+	verif.Assert(!p, "DecodeTunnelledQuery panicked: "+msg)
+	verif.Assert(err != nil, "override header combined with a URL query was accepted")
+	verif.Cover("rejected")
+}
+
+// Harness_C14_JsonOnlyMultipart: sanity of the shape used above: without a URL
+// query the JSON-only multipart body is rejected for its missing query part.
+func Harness_C14_JsonOnlyMultipart() {
+	body, ct := c14OverrideBody(2)
+	req := &http.Request{Method: http.MethodPost, URL: &url.URL{Path: "/root"}, Header: http.Header{}, Body: io.NopCloser(bytes.NewReader(body))}
+	req.Header.Set(MethodOverrideHeader, "PUT")
+	req.Header.Set(ContentTypeHeader, ct)
+	err := DecodeTunnelledQuery(req)
+	verif.Assert(err != nil && strings.Contains(err.Error(), "No query"), "JSON-only multipart body not rejected for the missing query part")
+	verif.Cover("rejected")
 }
